@@ -10,8 +10,10 @@ EXPLANATION = ("The real Multiprocessor.filter body is executed with its module-
                "stand-ins, which hands the harness the REAL worker line, loader line and the two completion callbacks (closures of the live generator frame). K1: the real worker line "
                "runs on an arbitrary queue (solver-chosen contents, poison position, maxtasksperchild, filter behaviour incl. 0/2 outputs per item and raising filters). K2: one call of "
                "each real callback from an arbitrary bookkeeping state (symbolic worker count, poisoned flag, exit code, exceptions) - an inductive step covering every history of worker "
-               "exits. K3: per-call state is fresh on every filter() call. Real spawn-based runs validate the composition.")
-ASSUMPTIONS = ["OS processes, pipes and the OS scheduler are not executed symbolically: K1/K2 are sequential kernels of the real code on simulated queue/event/process primitives; the composition under real scheduling is only covered by the real validation runs (multiset of outputs, error propagation, early abandonment, 20 s hang watchdog)",
+               "exits. K3: per-call state is fresh on every filter() call. K4: the real loader line and loader callback. "
+               "schedules: the composition (real generator body, callbacks, loader and worker lines) on simulated queues/events/process glue under a delay-bounded "
+               "schedule whose delay positions are z3 integers. Real spawn-based runs validate the composition.")
+ASSUMPTIONS = ["OS processes, pipes and the OS scheduler are not executed symbolically: K1-K4 are sequential kernels of the real code on simulated queue/event/process primitives; the composition is explored on the baton scheduler (vf/sim.py: instant FIFO queues honouring maxsize, ProcessLine glue re-expressed on actors, yield points at queue put/get, event wait and participant start) within the stated delay bound, and under real scheduling only by the real validation runs (multiset of outputs, error propagation, early abandonment, 40 s hang watchdog)",
                "byte-code-level races inside one callback (e.g. the non-atomic self._n_procs -= 1 across callback threads) are not explored",
                "items are pickled ints; the wrapped filter is one of {identity-like, two outputs per item, no output for odd items, raising ValueError/KeyError/CobaException at a chosen item}",
                "CobaMultiprocessor is only driven with filters that return an iterable per item (its ProcessFilter does `yield from`), as coba's own callers do",
